@@ -22,7 +22,7 @@ EmitB == buf \in ExploreFrom =>
                           clear |-> Code(Apply(cls, buf, ClearCall)),
                           fill |-> [j \in 1..Len(IdxSeq) |-> [k \in 1..Len(S) |->
                                       Code(Apply(cls, buf, FillCall(j, k)))]],
-                          update |-> [j \in 1..NRect |-> [k \in 1..Len(S) |->
+                          update |-> [j \in 1..Len(IdxSeq) |-> [k \in 1..Len(S) |->
                                       Code(Apply(cls, buf, UpdateCall(j, k)))]]])>>)
 
 \* per tile-file state (as left by a write, or initially): the result of every enabled call
